@@ -98,7 +98,7 @@ def ensure_facts(verbose=False):
         lock.close()
 
 
-def _evict(keep, maxn=12):
+def _evict(keep, maxn=40):
     ents = []
     for n in os.listdir(CACHE):
         p = os.path.join(CACHE, n)
